@@ -6,6 +6,7 @@ import (
 	"github.com/dave/dst/decorator/resolver/gobuild"
 	"go/ast"
 	"go/build"
+	"go/format"
 	"go/parser"
 	"go/token"
 	"hash/fnv"
@@ -307,7 +308,47 @@ func runC16(c *fw.Ctx) {
 					for k := 0; k < opsPer; k++ {
 						ref := refs[gr.Intn(len(refs))]
 						res := result{g: g, ref: ref}
-						switch gr.Intn(7) {
+						switch gr.Intn(8) {
+						case 7:
+							// a worker of the goroutine's own: one FileRestorer restores three files first
+							// and prints them only afterwards
+							res.op = "Parse+RestoreFile/own-file-restorer-restores-three-then-prints"
+							fr := decorator.NewRestorer().FileRestorer()
+							var afs []*ast.File
+							var rfs []*c16Ref
+							for j := 0; j < 3; j++ {
+								rf := refs[(gr.Intn(len(refs))+j)%len(refs)]
+								f, err := decorator.Parse(rf.src)
+								if err != nil {
+									res.err = err.Error()
+									break
+								}
+								fr.Name = rf.name
+								var af *ast.File
+								var rerr error
+								if sig, _ := fw.Try(func() { af, rerr = fr.RestoreFile(f) }); sig != "" {
+									res.err = sig
+									break
+								}
+								if rerr != nil {
+									res.err = rerr.Error()
+									break
+								}
+								afs = append(afs, af)
+								rfs = append(rfs, rf)
+							}
+							for j, af := range afs {
+								var b bytes.Buffer
+								if err := format.Node(&b, fr.Fset, af); err != nil {
+									res.err = err.Error()
+									break
+								}
+								if b.String() != rfs[j].plain {
+									res.err = "file " + rfs[j].name + " restored with two others by the goroutine's file restorer and printed afterwards differs from the same file printed alone"
+									break
+								}
+							}
+							res.out = "sequence-ok"
 						case 6:
 							// one restorer of the goroutine's own prints three files in turn
 							res.op = "Parse+Fprint/own-restorer-for-three-files"
@@ -424,7 +465,7 @@ func runC16(c *fw.Ctx) {
 					switch {
 					case res.op == "Parse+Fprint":
 						want = res.ref.plain
-					case res.op == "Parse+Fprint/own-restorer-for-three-files":
+					case res.op == "Parse+Fprint/own-restorer-for-three-files", res.op == "Parse+RestoreFile/own-file-restorer-restores-three-then-prints":
 						want, wantErr = "sequence-ok", ""
 					case strings.HasPrefix(res.op, "imports/"):
 						want, wantErr = res.ref.imp, res.ref.impErr
